@@ -5,7 +5,7 @@
    (correspondence), as are includes, enum merging, determinism of the written files. *)
 From Coq Require Import List NArith ZArith.
 Import ListNotations.
-From GM Require Import Bytes Result Codec Layout LayoutSpec Enum Gen GenProofs.
+From GM Require Import Bytes Result Codec Layout LayoutSpec Enum Gen GenProofs InitSpec GenSpec.
 Local Open Scope N_scope.
 
 (* every valid message definition — name [A-Z][A-Z0-9_]*, fields of any MAVLink scalar type, arrays
@@ -19,6 +19,19 @@ Theorem C18_message_denotes_definition : forall name id fs,
             def_of g = Some (mkMavDef name (abstract_fields 0 fs)).
 Proof. exact message_denotes_definition. Qed.
 Print Assumptions C18_message_denotes_definition.
+
+(* composed with the run-time (C03, generic): the struct generated for a valid definition whose
+   extension flags only go from base to extension, whose payload fits 255 bytes and whose names are
+   bytes, initialises, and its field order, sizes and CRC_EXTRA are the ones the MAVLink rules
+   assign to the XML definition *)
+Theorem C18_generated_message_follows_spec : forall name id fs,
+  valid_msg_name name = true -> Forall valid_afield fs -> exts_last_b (map af_ext fs) = true ->
+  spec_size_ext (abstract_fields 0 fs) <= 255 ->
+  bytes_ok (spec_crc_text (mkMavDef name (abstract_fields 0 fs))) = true ->
+  exists g c, process_message (mkXMsg name id (map render_field fs)) = Ok g /\ initialize g = Ok c /\
+              codec_matches_spec c (mkMavDef name (abstract_fields 0 fs)) = true.
+Proof. exact generated_message_follows_spec. Qed.
+Print Assumptions C18_generated_message_follows_spec.
 
 (* the Go type name read back by the run-time inversion is the definition's message name *)
 Theorem C18_message_name_recovered : forall s, valid_msg_name s = true ->
